@@ -1,6 +1,6 @@
 #!/bin/bash
 # usage: tools/seed_matrix.sh [-j N] [id ...]  -- every seeded change against the checks its meta.json lists, N seeds at
-# a time (default 3); writes seeded/MATRIX.txt (one block per seed: exit codes, VIOLATION lines, failed obligations)
+# a time (default 3; OWN_ONLY=1: only the first listed check, i.e. the seed's own property); writes seeded/MATRIX.txt (one block per seed: exit codes, VIOLATION lines, failed obligations)
 cd /verif
 par=3
 if [ "$1" = "-j" ]; then par=$2; shift 2; fi
@@ -9,10 +9,12 @@ tmp=$(mktemp -d /tmp/seed_matrix.XXXXXX)
 one() {
   id=$1; tmp=$2
   checks=$(jq -r '.checks_that_report_it | join(" ")' /verif/seeded/$id/meta.json)
+  [ -n "$OWN_ONLY" ] && checks=$(echo $checks | cut -d' ' -f1)
   { echo "=== seed $id (checks: $checks)"; /verif/tools/try_seed.sh /verif/seeded/$id/patch.diff $checks 2>&1; } > $tmp/$id.txt
 }
-export -f one
+export -f one; export OWN_ONLY
 echo $ids | tr ' ' '\n' | xargs -P $par -I{} bash -c "one {} $tmp"
+[ -d /tmp/matrix_keep ] && cp -n /tmp/matrix_keep/*.txt $tmp/ 2>/dev/null
 cat $(ls $tmp/*.txt | sort) > /verif/seeded/MATRIX.txt
 rm -rf $tmp
 grep -E "^=== |exit=" /verif/seeded/MATRIX.txt | awk '/^===/ {s=$3} /exit=/ {print s, $1, $2}'
